@@ -120,9 +120,9 @@ PROPS["C08"] = {
 
 PROPS["C14"] = {
     "module": "CqlVerif.Props.C14",
-    "streams": [{"name": "events", "quick": 600, "thorough": 20000}],
+    "streams": [{"name": "events", "quick": 600, "thorough": 20000}, {"name": "shake", "quick": 3000, "thorough": 200000}],
     "shrink": False,
-    "claim": "Lean theorems registry_inv, fanout_exact, no_topology_forward, disconnect_isolated, register_other_types, hand_over_conserves (the bounded channel from the control connection's reader to the event loop neither drops nor reorders, for every capacity) over Model/Events for every history of connect/register(any subset)/disconnect/events/control-connection failover; tied to proxy.go/cluster.go by the events e2e stream (fakecass injects events on the control connection; clients log EVENT frames: stream -1, content, order)",
+    "claim": "Lean theorems registry_inv, fanout_exact, no_topology_forward, disconnect_isolated, register_other_types, hand_over_conserves (the bounded channel from the control connection's reader to the event loop neither drops nor reorders, for every capacity) over Model/Events; control_handshake_registers (for every server script - READY at once, any authenticator with or without a challenge round trip, version refusals first, errors, silence - a successful handshake of a connection with an event handler ends with REGISTER), pooled_handshake_never_registers over Model/Handshake, tied to clientconn.go by the shake stream (the real ClientConn.Handshake against a scripted server: frames received and outcome) for every history of connect/register(any subset)/disconnect/events/control-connection failover; tied to proxy.go/cluster.go by the events e2e stream (fakecass injects events on the control connection; clients log EVENT frames: stream -1, content, order)",
     "note": "trusted: Lean kernel, hand-written model + e2e correspondence (sequentialised histories); events emitted while no control connection exists are outside the statement; the EVENT frame carries the cluster's negotiated version, not the client's (recorded, not judged)",
     "rule": "events: 1-4 clients, histories of up to 17 actions: connect, REGISTER for any subset of the three event types, disconnect, schema events of all five targets, topology and status events, control-connection drops followed by fail-over; compared: per client the ordered list of event ids received; distinct = distinct histories",
     "trusted_base": [KERNEL, DRIVER, HARNESS, "Model/Events.lean hand-written"],
@@ -143,7 +143,7 @@ PROPS["C07"] = {
 PROPS["C16"] = {
     "module": "CqlVerif.Props.C16",
     "gens": ["slot"],
-    "streams": [{"name": "reconn", "quick": 2000, "thorough": 200000}, {"name": "topo", "quick": 150, "thorough": 5000, "timeout": 7200}, {"name": "heal", "quick": 14, "thorough": 400, "timeout": 7200}, RETRY_STREAM],
+    "streams": [{"name": "reconn", "quick": 2000, "thorough": 200000}, {"name": "topo", "quick": 150, "thorough": 5000, "timeout": 7200}, {"name": "heal", "quick": 14, "thorough": 400, "timeout": 7200}, {"name": "shake", "quick": 3000, "thorough": 200000}, RETRY_STREAM],
     "shrink": False,
     "claim": "Lean theorems delay_bounds (all base/max with 0<base<=max, base<2^44 ns, all attempt counts and jitters, Go int64 wrap-around modelled) + overflow_witness for the excluded range, reset_restarts, views_agree / refresh_follows_peers (cluster view, load balancer and session pools equal the last peers table for every refresh / fail-over history), outage_iff_not_connected; over Model/Slot (the stayConnected loops of a pool slot and of the control connection): never_abandoned (after every turn of every history the loop is connected, has a connect timer armed, or was stopped), heals, loss_rearms, backoff_restarts_after_success (the delay armed after a re-established connection is lost again is what a fresh policy yields), armed_within_bounds (every delay a timer is ever armed with lies in [base, max]), slot_shape_ok (the shape of both loops, regenerated from the syntax tree on every run, is the one the model has); tied to reconnpolicy.go by a differential stream on the public API and to cluster.go/session.go/lb.go by the topo stream (real Cluster+LB+Session wired as Proxy.Connect, 40 ms refresh window, fakecass membership changes, child process so listener crashes are observed) and to connpool.go / cluster.go's reconnection loops by the heal stream (real proxy; the pooled or the control connection is dropped again and again and the backend turns away k attempts: when each attempt arrives is compared with the delays Model/Slot arms)",
     "note": "trusted: Lean kernel, hand-written models + correspondence; timers are real-time in the tie (generous margins) and event order in the model; heartbeat/idle-timeout detection and the readiness endpoint are exercised by the retry/storm/e2e streams only; the heal stream measures real time: lower bounds are exact (a timer never fires early), upper bounds carry 300 ms of slack; negative base delays are outside (delay_bounds hypothesis)",
